@@ -50,6 +50,7 @@ func c20(c *Ctx) {
 	c20verbatim(c)
 	c20zero(c)
 	c20requiredChildren(c)
+	c20blockComment(c)
 }
 
 // nodeish: *TokenNode, a type with a Format method from package ast, an interface of package ast, or a slice of those.
